@@ -380,6 +380,27 @@ func classifyLoop(p *Prog, l *mapLoop, absorbing func(fn *types.Func) bool) {
 				} else if lit != nil {
 					return true
 				}
+				// the callback parameter of a higher-order helper (`forEachDeleted(prev, cur, func(k, v) error {…})`):
+				// what the call does is what the function literals handed in at the helper's call sites do. They are
+				// classified in place, all of them; if some call site passes anything but a literal the call stays
+				// an unknown effect.
+				if lits := callbackLiterals(p, l, x.Fun); len(lits) > 0 {
+					for _, cb := range lits {
+						if inlined[cb.lit] {
+							continue
+						}
+						inlined[cb.lit] = true
+						sub := &mapLoop{Pkg: l.Pkg, Fn: cb.fn, FnName: l.FnName, depth: l.depth + 1, Range: &ast.RangeStmt{For: cb.lit.Pos(), Key: l.Range.Key, X: l.Range.X, Body: cb.lit.Body}}
+						classifyLoop(p, sub, absorbing)
+						for _, e := range sub.Effects {
+							if e.Kind == "return-const" || e.Kind == "return-value" {
+								continue
+							}
+							l.Effects = append(l.Effects, e)
+						}
+					}
+					return true
+				}
 			}
 			// a helper of the same package (an extracted loop body): its effects are classified in place, like a closure's
 			if callee != nil && callee.Pkg() == l.Pkg.Types && !callee.Exported() && l.depth < 2 {
@@ -718,4 +739,77 @@ func localClosure(p *Prog, info *types.Info, fn ast.Node, fun ast.Expr) *ast.Fun
 		return nil
 	}
 	return lit
+}
+
+type callbackLit struct {
+	lit *ast.FuncLit
+	fn  ast.Node
+}
+
+// callbackLiterals: fun names a function-typed parameter of the loop's own (unexported) function; the result lists
+// the function literals passed for it at every call site of that function in the package, or nil when some call site
+// passes something else (or there is no call site).
+func callbackLiterals(p *Prog, l *mapLoop, fun ast.Expr) []callbackLit {
+	lfn, _ := l.Fn.(*ast.FuncDecl)
+	return paramCallbackLiterals(l.Pkg, lfn, fun)
+}
+
+// paramCallbackLiterals is callbackLiterals for any function declaration of a package.
+func paramCallbackLiterals(pk *packages.Package, lfn *ast.FuncDecl, fun ast.Expr) []callbackLit {
+	info := pk.TypesInfo
+	id, ok := ast.Unparen(fun).(*ast.Ident)
+	if !ok || lfn == nil || lfn.Type.Params == nil {
+		return nil
+	}
+	obj := info.Uses[id]
+	if obj == nil {
+		return nil
+	}
+	idx, pi := -1, 0
+	for _, fld := range lfn.Type.Params.List {
+		for _, nm := range fld.Names {
+			if info.Defs[nm] == obj {
+				idx = pi
+			}
+			pi++
+		}
+	}
+	if idx < 0 || lfn.Name.IsExported() {
+		return nil
+	}
+	fnObj := info.Defs[lfn.Name]
+	var out []callbackLit
+	all := true
+	for _, f := range pk.Syntax {
+		for _, d := range f.Decls {
+			fd, ok := d.(*ast.FuncDecl)
+			if !ok || fd.Body == nil {
+				continue
+			}
+			ast.Inspect(fd.Body, func(n ast.Node) bool {
+				call, ok := n.(*ast.CallExpr)
+				if !ok {
+					return true
+				}
+				callee := Callee(info, call)
+				if callee == nil || (types.Object(callee) != fnObj && types.Object(callee.Origin()) != fnObj) {
+					return true
+				}
+				if idx >= len(call.Args) {
+					all = false
+					return true
+				}
+				if lit, ok := ast.Unparen(call.Args[idx]).(*ast.FuncLit); ok {
+					out = append(out, callbackLit{lit, fd})
+				} else {
+					all = false
+				}
+				return true
+			})
+		}
+	}
+	if !all {
+		return nil
+	}
+	return out
 }
